@@ -1,65 +1,516 @@
 //go:build verif
 
+// C14 search + correspondence harness.
+//
+// World: a temp storage root under /var/tmp with three databases (allowed, secret, default); every row of
+// the two databases the caller may NOT read carries a canary string. The caller is granted exactly one
+// database through a recording RBAC checker plugged into the real api.QueryHandler. Every generated
+// statement goes through the real fiber routes (POST /api/v1/query, /api/v1/query/arrow,
+// /api/v1/query/estimate, GET /api/v1/query/:measurement, GET /api/v1/measurements) against the real
+// sandboxed DuckDB, i.e. ValidateSQLRequest + header rules + SHOW gate + checkQueryPermissions +
+// getTransformedSQL[ForParallel] + execution, exactly as production wires them.
+//
+// Monitors (property violations of the REAL code; <class> = generator family, see gen.go `families`):
+//
+//	canary-read:<class>                   response contains a canary, or the statement executed successfully and
+//	                                      DuckDB's own parse tree of the executed text names stored files of a
+//	                                      (database, measurement) whose read permission was not checked
+//	unchecked-reference-rewritten:<class> the rewrite spliced read_parquet('<root>/<db>/<m>/…') for a pair that was
+//	                                      not permission-checked into text DuckDB's parser accepts (files exist)
+//	show-unchecked-listing:<class>        a SHOW / listing response names a measurement of an unchecked database
+//
+// Ops (diffed against the Lean string-level model drive_c14; only statements in the model's scope:
+// ASCII bytes only, none of the substrings extract/substring/trim/overlay, not a SHOW command):
+//
+//	q <header-hex> <sql-hex>   ->  rej:<reason> | hdr:bad | cross | ok refs=<db.m,…|->
+//
+// where the impl side is ValidateSQLRequest / validateHeaderDatabase / hasCrossDatabaseSyntax and the
+// list of pairs the real checkQueryPermissions handed to the RBAC checker during the HTTP request.
 package main
 
 import (
 	"bufio"
 	"fmt"
 	"os"
+	"regexp"
+	"sort"
 	"strconv"
 	"strings"
+	"time"
 
 	"github.com/basekick-labs/arc/internal/api"
 	"github.com/basekick-labs/arc/internal/verif/vh"
 )
 
-var _ = api.ValidateSQLRequest
-var _ = vh.Hex
+type run struct {
+	c *vh.Ctx
+	e *env
+	g *gen
+}
 
-func probe(path string) {
-	e := newEnv()
-	defer e.close()
-	f, err := os.Open(path)
-	must(err)
-	{
-		var js string
-		err := e.raw.QueryRow("SELECT json_serialize_sql(?::VARCHAR)::VARCHAR", "SELECT a FROM read_parquet('/x/y', union_by_name=true), 'zz' t, s.u JOIN \"q\" ON true").Scan(&js)
-		fmt.Println("ORACLE", err, js)
-		err = e.db.DB().QueryRow("SELECT json_serialize_sql('SELECT 1 FROM t')").Scan(&js)
-		fmt.Println("ORACLE2", err, js)
+func decision(sqlText, hdr string) string {
+	if err := api.ValidateSQLRequest(sqlText); err != nil {
+		m := err.Error()
+		switch {
+		case strings.Contains(m, "is required"):
+			return "rej:empty"
+		case strings.Contains(m, "maximum length"):
+			return "rej:toolong"
+		case strings.Contains(m, "Multiple SQL"):
+			return "rej:multi"
+		case strings.Contains(m, "Dangerous SQL"):
+			return "rej:danger"
+		case strings.Contains(m, "File I/O function"):
+			return "rej:io"
+		case strings.Contains(m, "String literal not allowed"):
+			return "rej:strtab"
+		case strings.Contains(m, "Quoted identifier in table position"):
+			return "rej:identtab"
+		}
+		return "rej:other"
 	}
-	sc := bufio.NewScanner(f)
-	sc.Buffer(make([]byte, 1<<20), 1<<20)
-	for sc.Scan() {
-		line := sc.Text()
-		if line == "" || strings.HasPrefix(line, "#") {
+	if !api.VerifC14HeaderOK(hdr) {
+		return "hdr:bad"
+	}
+	if hdr != "" && api.VerifC14HasCross(sqlText) {
+		return "cross"
+	}
+	return "ok"
+}
+
+var scopeBad = []string{"extract", "substring", "trim", "overlay"}
+
+func inScope(sqlText, hdr string) bool {
+	for i := 0; i < len(sqlText); i++ {
+		if sqlText[i] >= 0x80 {
+			return false
+		}
+	}
+	for i := 0; i < len(hdr); i++ {
+		if hdr[i] >= 0x80 {
+			return false
+		}
+	}
+	l := strings.ToLower(sqlText)
+	for _, w := range scopeBad {
+		if strings.Contains(l, w) {
+			return false
+		}
+	}
+	return true
+}
+
+func hexOrDash(s string) string { return vh.Hex([]byte(s)) }
+
+var spliceRe = regexp.MustCompile(`read_parquet\('([^']*)', union_by_name=true\)`)
+
+// rewritten returns the (db, measurement) pairs of the read_parquet('<root>/<db>/<m>/**/*.parquet', …)
+// texts that are present in `final` but not in the caller's own text.
+func (r *run) rewritten(orig, final string) [][2]string {
+	var out [][2]string
+	seen := map[[2]string]bool{}
+	for _, m := range spliceRe.FindAllStringSubmatch(final, -1) {
+		if strings.Contains(orig, m[0]) {
 			continue
 		}
-		i := strings.Index(line, "|")
-		hdr, q := line[:i], line[i+1:]
-		q = strings.ReplaceAll(q, "ROOT", e.root)
-		if uq, err := strconv.Unquote(`"` + strings.ReplaceAll(q, `"`, `\"`) + `"`); err == nil {
-			_ = uq
+		p := m[1]
+		if !strings.HasPrefix(p, r.e.root+"/") || !strings.HasSuffix(p, "/**/*.parquet") {
+			continue
 		}
-		q = strings.ReplaceAll(q, `\n`, "\n")
-		q = strings.ReplaceAll(q, `\t`, "\t")
-		q = strings.ReplaceAll(q, `\r`, "\r")
-		verr := api.ValidateSQLRequest(q)
-		o := e.query("/api/v1/query", q, hdr)
-		final, paths, _ := e.qh.VerifC14TransformedParallel(q, hdr)
-		files, tables, ok := e.readSet(final)
-		b := string(o.body)
-		if len(b) > 300 {
-			b = b[:300]
+		seg := strings.Split(strings.TrimSuffix(strings.TrimPrefix(p, r.e.root+"/"), "/**/*.parquet"), "/")
+		if len(seg) != 2 {
+			continue
 		}
-		fmt.Printf("---- hdr=%q sql=%q\n  validate=%v status=%d success=%v canary=%v err=%s\n  checked=%s\n  final=%q paths=%v\n  parse_ok=%v files=%v tables=%v touched=%v\n  body=%s\n",
-			hdr, q, verr, o.status, o.success, o.canary, errClass(o.errText), fmtChecked(o.checked), final, paths, ok, files, tables, e.touched(files), b)
+		k := [2]string{seg[0], seg[1]}
+		if !seen[k] {
+			seen[k] = true
+			out = append(out, k)
+		}
+	}
+	return out
+}
+
+func (r *run) scrub(s string) string { return strings.ReplaceAll(s, r.e.root, "<ROOT>") }
+
+// judge applies the monitors to one executed request.
+func (r *run) judge(endpoint string, s stmt, o outcome, final string, paths []string) {
+	c := r.c
+	rep := r.scrub(replayLine(endpoint, s)) + "   (<ROOT> = storage root; databases allowed/secret/default; caller granted only 'allowed')"
+	if o.canary {
+		fam := attribute(s, "text", nil, [2]string{})
+		if len(r.rewritten(s.sql, final)) > 0 && !strings.Contains(final, "parquet_scan") && strings.Count(final, "read_parquet") == len(spliceRe.FindAllString(final, -1)) {
+			fam = attribute(s, "rewrite", nil, [2]string{})
+		}
+		c.Tag("canary:" + fam)
+		c.Fail("canary-read:"+fam, fmt.Sprintf("response of %s contains canary rows of an unauthorised database; permission-checked pairs: %s", endpoint, fmtChecked(o.checked)), rep)
+	}
+	executed := o.status != 400 && o.status != 403
+	if !executed {
+		return
+	}
+	files, tables, parsed := r.e.readSet(final)
+	if !parsed {
+		c.Tag("exec:duckdb-parser-rejects")
+	}
+	pats := append(append([]string{}, files...), paths...)
+	for _, t := range tables {
+		if strings.ContainsAny(t, "/*") || strings.HasSuffix(t, ".parquet") {
+			pats = append(pats, t)
+		}
+	}
+	ok200 := o.status == 200 && (o.success || strings.HasSuffix(endpoint, "/arrow"))
+	rw := r.rewritten(s.sql, final)
+	for _, k := range r.e.touched(pats) {
+		if checkedCovers(o.checked, k[0], k[1]) {
+			continue
+		}
+		if ok200 {
+			mech := "text"
+			for _, w := range rw {
+				if w == k {
+					mech = "rewrite"
+				}
+			}
+			fam := attribute(s, mech, o.checked, k)
+			c.Fail("canary-read:"+fam, fmt.Sprintf("%s executed successfully and DuckDB's parse of the executed text reads stored files of %s.%s; permission-checked pairs: %s", endpoint, k[0], k[1], fmtChecked(o.checked)), rep)
+			c.Tag("unchecked-read:" + fam)
+		} else {
+			c.Tag("nearmiss:unchecked-files-named-but-exec-failed:" + errClass(o.errText))
+		}
+	}
+	for _, k := range rw {
+		if checkedCovers(o.checked, k[0], k[1]) {
+			continue
+		}
+		if _, isDB := layout[k[0]]; !isDB || len(r.e.touched([]string{r.g.path(k[0], k[1])})) == 0 {
+			c.Tag("rewrite:unchecked-pair-without-stored-files")
+			continue
+		}
+		if parsed {
+			fam := attribute(s, "rewrite", o.checked, k)
+			c.Fail("unchecked-reference-rewritten:"+fam, fmt.Sprintf("the rewrite spliced read_parquet for %s.%s (stored files exist) which was never permission-checked (checked: %s); DuckDB's parser accepts the text (status %d)", k[0], k[1], fmtChecked(o.checked), o.status), rep)
+			c.Tag("unchecked-rewrite:" + fam)
+		} else {
+			c.Tag("nearmiss:unchecked-rewrite-parser-rejected:" + s.family)
+		}
 	}
 }
 
-func main() {
-	if p := os.Getenv("C14_PROBE"); p != "" {
-		probe(p)
+var showLike = regexp.MustCompile(`(?i)^\s*show\b`)
+
+// one statement: ops line (decision + refs through POST /api/v1/query) and the monitors on up to three endpoints.
+func (r *run) one(s stmt, allEndpoints bool) {
+	c := r.c
+	s.sql = strings.ToValidUTF8(s.sql, "\uFFFD") // what the JSON body can carry
+	c.Tag("family:" + s.family)
+	dec := decision(s.sql, s.hdr)
+	o := r.e.query("/api/v1/query", s.sql, s.hdr)
+	kind, _ := api.VerifC14ShowKind(s.sql)
+	c.Tag("decision:" + dec)
+	c.Tag(fmt.Sprintf("status:%d", o.status))
+	// consistency of the handler with its parts (tie of the op line to the HTTP path)
+	if (dec != "ok") != (o.status == 400) && kind == 0 && len(s.sql) > 0 {
+		c.Fail("harness-inconsistent:decision-vs-status", fmt.Sprintf("decision %s but HTTP status %d", dec, o.status), r.scrub(replayLine("/api/v1/query", s)))
+	}
+	if kind == 0 && inScope(s.sql, s.hdr) {
+		line := dec
+		if dec == "ok" {
+			line += " refs=" + fmtChecked(o.checked)
+		}
+		c.Op("q "+hexOrDash(s.hdr)+" "+hexOrDash(s.sql), line)
+	}
+	if o.status != 400 && o.status != 403 {
+		c.Tag("executed:" + errClass(o.errText))
+	}
+	if dec == "ok" && kind == 0 {
+		final, paths, _ := r.e.qh.VerifC14TransformedParallel(s.sql, s.hdr)
+		r.judge("/api/v1/query", s, o, final, paths)
+		if allEndpoints && o.status != 403 {
+			plain := r.e.qh.VerifC14Transformed(s.sql, s.hdr)
+			oa := r.e.query("/api/v1/query/arrow", s.sql, s.hdr)
+			r.judge("/api/v1/query/arrow", s, oa, plain, nil)
+			oe := r.e.query("/api/v1/query/estimate", s.sql, s.hdr)
+			r.judge("/api/v1/query/estimate", s, oe, "SELECT COUNT(*) FROM ("+plain+") AS t", nil)
+		}
+	} else if o.canary {
+		c.Fail("canary-read:"+s.family, "response contains canary rows although the request was not accepted as a query", r.scrub(replayLine("/api/v1/query", s)))
+	}
+	c.Case(s.hdr+"\x00"+r.scrub(s.sql), dec == "ok" && s.family != "plain")
+}
+
+// ---------------------------------------------------------------- GET /api/v1/query/:measurement
+
+func (r *run) measurementGrid() {
+	c := r.c
+	wheres := []string{"", "v >= 0", "host IN (SELECT host FROM " + secretDB + ".cpu)", "EXISTS (SELECT 1 FROM " + secretDB + ".cpu s WHERE s.canary LIKE 'C%')",
+		"v < (SELECT count(*) FROM " + secretDB + ".vault)", "host IN (SELECT host FROM cpu)", "host IN (SELECT host FROM " + allowedDB + ".mem)",
+		"canary IN (SELECT canary FROM " + secretDB + ".cpu UNION SELECT 'x')", "host = 'h1' -- x", "host = 'h1'; SELECT 1", "v IN (SELECT v FROM parquet_scan('" + r.g.secretPath() + "'))",
+		"v IN (SELECT v FROM '" + r.g.secretPath() + "')", "host IN (SELECT host FROM \"" + secretDB + "\".\"cpu\")", "host IN (SELECT host\nFROM\n" + secretDB + ".cpu)"}
+	for _, tgt := range [][2]string{{allowedDB, "cpu"}, {secretDB, "cpu"}, {"", "cpu"}, {allowedDB, "vault"}, {allowedDB, "cpu-x"}, {"..", "cpu"}, {allowedDB, "cpu;"}} {
+		for _, w := range wheres {
+			s := stmt{family: "measurement-where-subquery", hdr: "", sql: fmt.Sprintf("GET measurement=%s database=%s where=%s", tgt[1], tgt[0], w)}
+			o := r.e.queryMeasurement(tgt[1], tgt[0], w)
+			c.Tag("family:" + s.family)
+			c.Tag(fmt.Sprintf("measurement-status:%d", o.status))
+			db := tgt[0]
+			if db == "" {
+				db = "default"
+			}
+			composed := fmt.Sprintf("SELECT * FROM %s.%s", db, tgt[1])
+			if w != "" {
+				composed += " WHERE " + w
+			}
+			composed += " ORDER BY time DESC LIMIT 100 OFFSET 0"
+			final := r.e.qh.VerifC14Transformed(composed, "")
+			s2 := s
+			s2.sql = composed
+			if o.status != 400 && o.status != 403 {
+				c.Tag("executed:" + errClass(o.errText))
+			}
+			r.judgeAs("/api/v1/query/:measurement", s, s2, o, final)
+			c.Case("measurement\x00"+r.scrub(s.sql), o.status == 200)
+		}
+	}
+}
+
+func (r *run) judgeAs(endpoint string, shown, composed stmt, o outcome, final string) {
+	// same monitors; the replay text shows the HTTP parameters, the rewrite comparison uses the composed SQL
+	tmp := composed
+	tmp.sql = composed.sql
+	saved := shown.sql
+	tmp.family = shown.family
+	_ = saved
+	// replayLine prints tmp.sql; make it the request parameters
+	rr := stmt{family: shown.family, hdr: "", sql: shown.sql + "  [composed: " + composed.sql + "]"}
+	c := r.c
+	rep := r.scrub(replayLine(endpoint, rr))
+	if o.canary {
+		c.Fail("canary-read:"+shown.family, "response contains canary rows; checked: "+fmtChecked(o.checked), rep)
+	}
+	if o.status == 400 || o.status == 403 {
 		return
 	}
+	files, tables, parsed := r.e.readSet(final)
+	pats := append([]string{}, files...)
+	for _, t := range tables {
+		if strings.ContainsAny(t, "/*") {
+			pats = append(pats, t)
+		}
+	}
+	for _, k := range r.e.touched(pats) {
+		if checkedCovers(o.checked, k[0], k[1]) {
+			continue
+		}
+		if o.status == 200 && o.success {
+			c.Fail("canary-read:"+shown.family, fmt.Sprintf("%s executed successfully and the executed text reads stored files of %s.%s; permission-checked pairs: %s", endpoint, k[0], k[1], fmtChecked(o.checked)), rep)
+			c.Tag("unchecked-read:" + shown.family)
+		} else {
+			c.Tag("nearmiss:unchecked-files-named-but-exec-failed:" + errClass(o.errText))
+		}
+	}
+	for _, k := range r.rewritten(composed.sql, final) {
+		if checkedCovers(o.checked, k[0], k[1]) || len(r.e.touched([]string{r.g.path(k[0], k[1])})) == 0 {
+			continue
+		}
+		if parsed {
+			c.Fail("unchecked-reference-rewritten:"+shown.family, fmt.Sprintf("the rewrite spliced read_parquet for %s.%s which was never permission-checked (checked: %s)", k[0], k[1], fmtChecked(o.checked)), rep)
+		}
+	}
+}
+
+// ---------------------------------------------------------------- SHOW / listing endpoints
+
+func (r *run) showGrid() {
+	c := r.c
+	leak := func(b []byte) bool { return strings.Contains(string(b), "vault") }
+	var qs []string
+	for _, cmd := range []string{"SHOW TABLES", "SHOW MEASUREMENTS", "show tables", "SHOW  TABLES", "SHOW\nTABLES", "SHOW\tMEASUREMENTS"} {
+		qs = append(qs, cmd, cmd+";", cmd+" ;", " "+cmd+" ", "/* x */ "+cmd, cmd+" -- x", cmd+" /* ' */", "-- '\n"+cmd)
+		for _, d := range []string{secretDB, `"` + secretDB + `"`, "'" + secretDB + "'", "`" + secretDB + "`", secretDB + ";", `"` + secretDB + `";`, "/**/" + secretDB, secretDB + " --x",
+			allowedDB, "..", secretDB + "/../" + secretDB, `"` + secretDB + `--x"`, "`" + secretDB + "--x`", secretDB + ".cpu", "$$" + secretDB + "$$", "E'" + secretDB + "'", strings.ToUpper(secretDB)} {
+			qs = append(qs, cmd+" FROM "+d, cmd+" from "+d, cmd+"\nFROM\n"+d, cmd+" IN "+d)
+		}
+	}
+	qs = append(qs, "SHOW DATABASES", "show databases;", "/* */ SHOW DATABASES", "SHOW DATABASES -- '", "SHOW ALL TABLES", "SHOW TABLES; SELECT 1", "SHOW", "SHOW search_path",
+		"DESCRIBE", "SHOW TABLES FROM", "SHOW SCHEMAS", "SHOW TABLES LIKE 'v%'", "SHOW\fTABLES FROM "+secretDB, "SHOW\vTABLES FROM "+secretDB, "SHOW TABLES FROM "+secretDB)
+	for _, hdr := range []string{"", allowedDB, secretDB} {
+		for _, q := range qs {
+			for _, ep := range []string{"/api/v1/query", "/api/v1/query/arrow", "/api/v1/query/estimate"} {
+				o := r.e.query(ep, q, hdr)
+				kind, db := api.VerifC14ShowKind(q)
+				c.Tag("family:show")
+				c.Tag(fmt.Sprintf("show-kind:%d status:%d", kind, o.status))
+				s := stmt{family: "show", hdr: hdr, sql: q}
+				if leak(o.body) && !checkedCovers(o.checked, secretDB, "*") {
+					c.Fail("show-unchecked-listing:show", fmt.Sprintf("%s lists measurements of the unauthorised database (show kind %d, explicit db %q); checked: %s", ep, kind, db, fmtChecked(o.checked)), r.scrub(replayLine(ep, s)))
+				}
+				if o.canary {
+					c.Fail("canary-read:show", "response contains canary rows", r.scrub(replayLine(ep, s)))
+				}
+				if kind != 0 && o.status == 200 && len(o.checked) == 0 {
+					c.Fail("show-unchecked-listing:no-check", fmt.Sprintf("%s answered a SHOW command (kind %d) without any permission check", ep, kind), r.scrub(replayLine(ep, s)))
+				}
+				c.Case("show\x00"+ep+"\x00"+hdr+"\x00"+q, kind != 0)
+			}
+		}
+	}
+	for _, qs := range []string{"", "?database=" + secretDB, "?database=" + allowedDB, "?database=..", "?database=" + secretDB + "%00", "?database=" + secretDB + "&database=" + allowedDB, "?database=" + allowedDB + "&database=" + secretDB, "?Database=" + secretDB} {
+		o := r.e.do("GET", "/api/v1/measurements"+qs, "", nil)
+		c.Tag(fmt.Sprintf("list-status:%d", o.status))
+		if leak(o.body) && !checkedCovers(o.checked, secretDB, "*") && !checkedCovers(o.checked, "*", "*") {
+			c.Fail("show-unchecked-listing:measurements", "GET /api/v1/measurements lists measurements of the unauthorised database; checked: "+fmtChecked(o.checked), "GET /api/v1/measurements"+qs)
+		}
+		c.Case("list\x00"+qs, true)
+	}
+}
+
+// ---------------------------------------------------------------- replay / corpus
+
+var replayRe = regexp.MustCompile(`^endpoint=(\S+) family=(\S+) header=("(?:[^"\\]|\\.)*") sql=("(?:[^"\\]|\\.)*")`)
+
+func (r *run) replayFile(path string) int {
+	f, err := os.Open(path)
+	if err != nil {
+		return 0
+	}
+	defer f.Close()
+	n := 0
+	sc := bufio.NewScanner(f)
+	sc.Buffer(make([]byte, 1<<20), 1<<20)
+	for sc.Scan() {
+		m := replayRe.FindStringSubmatch(sc.Text())
+		if m == nil {
+			continue
+		}
+		hdr, e1 := strconv.Unquote(m[3])
+		q, e2 := strconv.Unquote(m[4])
+		if e1 != nil || e2 != nil {
+			continue
+		}
+		q = strings.ReplaceAll(q, "<ROOT>", r.e.root)
+		r.one(stmt{family: m[2], shape: "corpus", hdr: hdr, sql: q}, true)
+		n++
+	}
+	return n
+}
+
+func main() {
+	c := vh.Start()
+	e := newEnv()
+	defer e.close()
+	g := &gen{r: vh.NewRand(c.Seed), root: e.root}
+	if d, ok := c.Facts["denylist"].([]any); ok {
+		for _, x := range d {
+			if s, isStr := x.(string); isStr {
+				g.deny = append(g.deny, s)
+			}
+		}
+	}
+	r := &run{c: c, e: e, g: g}
+	t0 := time.Now()
+	if c.Replay != "" {
+		r.replayFile(c.Replay)
+		c.Finish("replay of " + c.Replay)
+		return
+	}
+	// 1. corpus
+	if ents, err := os.ReadDir("/verif/corpus/C14"); err == nil {
+		names := []string{}
+		for _, en := range ents {
+			if strings.HasSuffix(en.Name(), ".replay") {
+				names = append(names, en.Name())
+			}
+		}
+		sort.Strings(names)
+		for _, n := range names {
+			r.replayFile("/verif/corpus/C14/" + n)
+		}
+	}
+	// 2. grids
+	grid := g.grid()
+	for _, s := range grid {
+		r.one(s, true)
+	}
+	r.measurementGrid()
+	r.showGrid()
+	// 3. random compositions + malformed stream
+	n := c.N
+	if n == 0 {
+		n = 6000
+		if c.Thorough() {
+			n = 150000
+		}
+	}
+	budget := 45 * time.Second
+	if c.Thorough() {
+		budget = 12 * time.Minute
+	}
+	done := 0
+	for i := 0; i < n && time.Since(t0) < budget; i++ {
+		var s stmt
+		if i%5 == 4 {
+			s = g.malformed()
+		} else {
+			s = g.randomStmt()
+		}
+		r.one(s, i%4 == 0)
+		done++
+	}
+	c.Extra["grid_statements"] = len(grid)
+	c.Extra["random_statements"] = done
+	c.Extra["seconds"] = int(time.Since(t0).Seconds())
+	c.Finish("non-trivial = statement accepted by ValidateSQLRequest + header rules and carrying a disguise family other than plain")
+}
+
+// attribute names the finding class of a monitor hit. Grid / corpus statements carry their family; a
+// random composition is attributed by the mechanism observed (a reference the REWRITE spliced without a
+// check vs. live TEXT the validator did not see) and then by its lexical features, in a fixed priority.
+var (
+	phRe     = regexp.MustCompile(`__(?:STR|IDENT)_\d+__`)
+	withGap  = regexp.MustCompile(`(?i)\bwith\s`)
+	cteComma = regexp.MustCompile(`(?i),\s*\w+(?:\s*\([^)]*\))?\s+AS\s*\(`)
+	gluedRe  = regexp.MustCompile(`(?i)[0-9]from\b`)
+	nlParen  = regexp.MustCompile(`\w[ \t]*[\n\r\f\v][ \t\n\r]*\(`)
+)
+
+func attribute(s stmt, mech string, checked []chk, k [2]string) string {
+	for _, c := range checked {
+		if c.db == k[0] && c.m != k[1] && strings.EqualFold(c.m, k[1]) {
+			return "case-fold"
+		}
+	}
+	if s.family != "random" {
+		return s.family
+	}
+	q := s.sql
+	if mech == "rewrite" && s.hdr != "" {
+		switch {
+		case withGap.MatchString(q) && !strings.Contains(strings.ToLower(q), "with "), cteComma.MatchString(q):
+			return "header-cte-gate"
+		case gluedRe.MatchString(q):
+			return "header-glued-from"
+		case nlParen.MatchString(q):
+			return "header-call-newline"
+		}
+	}
+	for i := 0; i < len(q); i++ {
+		if q[i] >= 0x80 {
+			return "reader-spelling"
+		}
+	}
+	switch {
+	case phRe.MatchString(q):
+		return "placeholder-lookalike"
+	case strings.Contains(q, `\'`):
+		return "backslash-quote"
+	case strings.Contains(q, `\"`), strings.Contains(q, "\\`"):
+		return "backslash-dquote"
+	case strings.Contains(q, "-- '") || strings.Contains(q, "--'"):
+		return "quote-in-line-comment"
+	case strings.Contains(q, "/* ' */") || strings.Contains(q, "/* $$ */"):
+		return "quote-in-block-comment"
+	case strings.Contains(q, `"/*"`), strings.Contains(q, `"--"`):
+		return "comment-marker-in-literal"
+	}
+	return "random"
 }
